@@ -146,6 +146,7 @@ type FuncV struct {
 	builtin  string                                        // name of builtin / intrinsic
 	native   func(in *Interp, args []Value) (Value, bool) // optional native closure
 	recv     Value                                         // bound receiver for native
+	noIntr   bool                                          // skip the intrinsic table (intrinsic declined)
 }
 
 type AggV []Value
